@@ -510,6 +510,9 @@ type c12job struct {
 	group   string
 	// finish turns the child's stdout into (impl, served)
 	finish func(out string) (impl string, served bool)
+	// retry: how often a scenario that finished without being served is run again before it is
+	// reported (only for scenarios whose verdict depends on wall-clock bounds on a loaded machine)
+	retry int
 	// explain words a failure: class is "P" (child died), "H" (timeout) or "ok" (finished, not served)
 	explain func(class, out, panicLine string) (key, text string)
 }
@@ -527,7 +530,7 @@ func runC12Jobs(jobs []*c12job, w *hx.Writer) {
 			var out, class, lastPanic string
 			// a scenario that merely did not finish in time is run again (wall-clock bound, loaded
 			// machine); a crash is reported at once
-			for attempt := 0; attempt < 3; attempt++ {
+			for attempt := 0; attempt <= j.retry; attempt++ {
 				out, class, lastPanic = runSubQuiet(j.sub, j.arg, j.timeout)
 				if class == "P" {
 					break
@@ -588,7 +591,7 @@ func genC12(rng *hx.Rng, tier string, w *hx.Writer) error {
 	scen := func(group, kind, sub string, timeout time.Duration) {
 		jobs = append(jobs, &c12job{
 			c:   hx.Case{Entry: "-", Op: 0, Args: hx.L(hx.B([]byte(group)), hx.B([]byte(kind))), Tags: []string{group, "k:" + kind, "nt"}},
-			sub: sub, arg: kind, timeout: timeout, group: group,
+			sub: sub, arg: kind, timeout: timeout, group: group, retry: 2,
 			finish: func(out string) (string, bool) { return hx.B([]byte(out)), out == "served" },
 		})
 	}
